@@ -190,6 +190,15 @@ def expand_conjuncts(P: Project, fn: FuncInfo, expr: ast.expr, depth: int = 2) -
     return out
 
 
+def ceq(fn: FuncInfo | str, expr: ast.AST | None, text: str) -> bool:
+    """`expr` denotes `text`, directly or once temporaries are replaced by what is assigned to them."""
+    if expr is None:
+        return False
+    if unparse(expr, 2000) == text:
+        return True
+    return isinstance(fn, FuncInfo) and text in canon(fn, expr)
+
+
 def defined_by(fn: FuncInfo, pattern: str, var: str = "v", *, into_nested: bool = False) -> list[str]:
     """Names of the locals bound by an assignment matching `pattern` (which must bind metavariable `$v`)."""
     return [b[var].id for _n, b in pfind(pattern, fn.node, into_nested=into_nested) if isinstance(b.get(var), ast.Name)]  # type: ignore[union-attr]
@@ -212,5 +221,5 @@ __all__ = [
     "is_within", "kwarg", "last_attr", "names_in", "norm", "params_of", "stmt_of", "strip_not", "unparse",
     "walk_body", "walk_local", "cfg_of", "find_calls_named", "body_calls", "check_identity_forwarding",
     "loop_var_uses", "guard_tests", "dominated_by_guard", "simple_return_expr", "local_value", "qual",
-    "pfind", "pfirst", "phas", "pmatch", "ptests", "name_of", "same_var", "is_var", "canon", "defined_by", "expand_conjuncts",
+    "pfind", "pfirst", "phas", "pmatch", "ptests", "name_of", "same_var", "is_var", "canon", "ceq", "defined_by", "expand_conjuncts",
 ]
